@@ -70,7 +70,7 @@ def search(prop, failure):
     tried = []
     # a functional property of a family (C04..C12, C17, C19) promises outputs; a lost wake-up in that family (the C01 monitor:
     # Pending returned with no wake-up outstanding although a child is ready / fired) withholds them, so it is searched too
-    props = [prop] + (['C01'] if prop in LIVENESS_VIA_C01 else [])
+    props = [prop] + (['C01', 'C20'] if prop in LIVENESS_VIA_C01 else [])   # C20 monitor: a child never started withholds outputs as well
     for (fam, cont), prop_w in [(t, p_) for p_ in props for t in tg]:
         cmd = [exe, '--family', fam, '--container', cont, '--prop', prop_w, '--budget', BUDGET, '--seed', os.environ.get('VERIF_SEED', '1') or '1']
         try:
